@@ -1,7 +1,7 @@
 (* C04 — property theorems. Statements only, each closed by `exact <lemma>`, Print Assumptions beneath,
    then the non-vacuity examples and the refutations of the unrepaired code (…_v0). *)
 From Coq Require Import Lia ZifyN ZifyNat.
-From C04 Require Import Model ProofsBase ProofsChunk ProofsSealed ProofsFetch ProofsMain.
+From C04 Require Import Model CaseDefs ProofsBase ProofsChunk ProofsSealed ProofsFetch ProofsMain ProofsSpec.
 Open Scope N_scope.
 
 (* thm:C04_fetch_exact — for every configuration (IDs per block >= 1, initial chunk >= 1), every corpus split
@@ -63,6 +63,19 @@ Theorem C04_fraction_lookup : forall B g f ids, 1 <= ipb g -> frac_wf B f -> For
   frac_fetch g (compile f) ids = Ok (map (lookup f) ids).
 Proof. exact frac_fetch_ok. Qed.
 Print Assumptions C04_fraction_lookup.
+
+(* link to the correspondence run: the executable specification checker that every run evaluates on the
+   IMPLEMENTATION's output (CaseDefs.case_spec_ok: independent corpus lookup, IDs echoed, batch lengths >= 1
+   covering the request) accepts the MODEL's output for every valid input; likewise for calcChunkSize *)
+Theorem C04_model_meets_spec : forall B g frs ids, cfg_ok g -> corpus_wf B frs -> req_ok B ids ->
+  case_spec_ok (CFetch g frs ids (stream g frs ids) (Some (batch_lens (batches g (map compile frs) ids)))) = true.
+Proof. exact model_meets_spec. Qed.
+Print Assumptions C04_model_meets_spec.
+
+Theorem C04_calc_meets_spec : forall g sizes prev, 1 <= prev ->
+  case_spec_ok (CCalc g sizes prev (Some (calc_chunk g (docs_of_sizes sizes) prev))) = true.
+Proof. exact calc_meets_spec. Qed.
+Print Assumptions C04_calc_meets_spec.
 
 (* ------------------------------------------------------------------ non-vacuity *)
 Definition ex_g := mkCfg 2 4194304 1000.
